@@ -212,7 +212,7 @@ PIN = ["", ", 5", ", 5-6", ", at 5", ", 5, 7", ", 5, n.3", ", *5", ", ¶ 5", ", 
 COURTYEAR = ["", " (1999)", " (2d Cir. 1999)", " (Cal. Ct. App. 2005)", " [1999]", " (1993-94)"]
 PAREN = ["", " (overruling Baz)", " (quoting (x) y)"]
 TERM = [".", ";", ",", "", ")", "]"]
-SUF = [" Next sentence.", "", " See also 3 F.3d 9."]
+SUF = [" Next sentence.", "", " See also 3 F.3d 9.", " Later, {de} at 5 was followed."]  # the last one: a later mention of the defendant (reference citation)
 FULL_SLOTS = [("pre", PRE), ("plaintiff", PLAINTIFF), ("defendant", DEFENDANT), ("rep", REP), ("volpage", VOLPAGE), ("parallel", PARALLEL), ("pin", PIN), ("courtyear", COURTYEAR), ("paren", PAREN), ("term", TERM), ("suf", SUF)]
 COURT_IDS = {"2d Cir.": "ca2", "Cal. Ct. App.": "calctapp"}
 
@@ -240,6 +240,8 @@ def check_full(a):
     pin_end = len(text)
     text += par + cy + paren
     close = len(text)
+    suf = suf.replace("{de}", de)
+    par_span = (pin_end + 2, pin_end + len(par)) if par else None
     text += term + suf
     try:
         cs = get_citations(text)
@@ -256,6 +258,22 @@ def check_full(a):
     exp_n = 1 + (1 if par else 0) + (1 if "3 F.3d 9" in suf else 0)
     if len(nfull) != exp_n:
         res.append(("full-count", f"{text!r}: expected {exp_n} full case citations, got {[(x.span(), x.matched_text()) for x in nfull]}"))
+    if par and "§" not in pin:
+        # (a section-mark pin cite puts a '§' token, i.e. a third citation, between the two: not the parallel-cite form)
+        # the parallel citation is a written citation too: exactly one full case citation at its span, sharing the case
+        # name (defendant as written, plaintiff a suffix of the written one) and the year parenthetical
+        pc = [x for x in nfull if x.span() == par_span]
+        if len(pc) != 1:
+            res.append(("parallel-missing", f"{text!r}: no single full case citation at the parallel cite {par_span}: {[(x.span(), x.matched_text()) for x in nfull]}"))
+        else:
+            pm = pc[0].metadata
+            if pm.defendant != de:
+                res.append(("parallel-defendant", f"{text!r}: parallel cite {pc[0].matched_text()!r} has defendant {pm.defendant!r}, written {de!r}"))
+            if not (pm.plaintiff and pl.endswith(pm.plaintiff)):
+                res.append(("parallel-plaintiff", f"{text!r}: parallel cite has plaintiff {pm.plaintiff!r}, written {pl!r}"))
+            exp_py = cy.strip(" ()[]").split()[-1][:4] if cy else None
+            if pm.year != exp_py:
+                res.append(("parallel-year", f"{text!r}: parallel cite has year {pm.year!r}, written {exp_py!r}"))
     g = c.groups
     if g.get("volume") != vol or g.get("reporter") != rep or g.get("page") != (None if page == "___" else page):
         res.append(("full-groups", f"{text!r}: groups {dict(g)}"))
